@@ -399,10 +399,15 @@ impl DcpsDomainParticipant {
         // The filter is evaluated for every sample the readers of this topic receive. Reject here
         // what that evaluation does not support: the expression must be `<member> <= ...` or
         // `<member> = ...` on an INT32 or string member of the related topic's type, compared
-        // with the first expression parameter (an integer for an INT32 member)
-        let member_kind = ["<=", "="]
+        // with an expression parameter `%n` that exists or with a literal (an integer for an
+        // INT32 member)
+        let member_and_operand = ["<=", "="]
             .iter()
-            .find_map(|operator| filter_expression.split_once(operator))
+            .find_map(|operator| filter_expression.split_once(operator));
+        let operand = member_and_operand.and_then(|(_, operand)| {
+            super::topic_entity::filter_operand(operand, &expression_parameters)
+        });
+        let member_kind = member_and_operand
             .and_then(|(member_name, _)| {
                 related_topic
                     .type_support
@@ -410,9 +415,9 @@ impl DcpsDomainParticipant {
                     .ok()
             })
             .map(|member| member.descriptor.r#type.get_kind());
-        let is_supported = match (member_kind, expression_parameters.first()) {
-            (Some(crate::xtypes::dynamic_type::TypeKind::INT32), Some(parameter)) => {
-                parameter.parse::<i32>().is_ok()
+        let is_supported = match (member_kind, operand) {
+            (Some(crate::xtypes::dynamic_type::TypeKind::INT32), Some(operand)) => {
+                operand.parse::<i32>().is_ok()
             }
             (
                 Some(
